@@ -564,7 +564,7 @@ func (ex *exec) allFieldCells(env *SpecEnv, base Val, f func(hi *heapInfo, ref s
 		for i := 0; i < sty.NumFields(); i++ {
 			ft := sty.Field(i).Type()
 			if _, nested := ft.Underlying().(*types.Struct); nested {
-				walk(ft, "("+vc.fieldAddrFn(t, i)+" "+ref+")")
+				walk(ft, vc.interiorRef(t, i, ref))
 				continue
 			}
 			f(vc.fieldHeap(t, i), ref)
